@@ -112,7 +112,7 @@ def rule_name_pairing(check: Check, repo) -> None:
 
 def run(tier: str) -> Check:
     check = Check("C13", tier, EXPLANATION)
-    check.rules = ["FURTHEST", "FAIL", "FAIL-SITE", "FAILLABEL", "FAILPOS", "FRAMES", "NEG", "SUPPRESS", "FAIL-PARITY", "ESCAPE-RENDER", "LINE-OFFSET", "CASE"]
+    check.rules = ["CONTEXT", "FURTHEST", "FAIL", "FAIL-SITE", "FAILLABEL", "FAILPOS", "FRAMES", "NEG", "SUPPRESS", "FAIL-PARITY", "ESCAPE-RENDER", "LINE-OFFSET", "CASE"]
     check.assumptions = [
         "that the line/column/source line shown are those of p: only the partition premise (LINE-OFFSET) of error_context is decided, not its arithmetic",
         "start_pos <= p relies on C16's position-write discipline and on callers passing 0 <= start_pos <= len(text)",
@@ -151,6 +151,19 @@ def run(tier: str) -> Check:
     from ..lineoff import apply as line_offsets
 
     line_offsets(check, repo, "LINE-OFFSET", ["src/pest/exceptions.py"], 1)
+    # "the line:column and the source line shown are those of p": decided on the order-and-adjacency abstraction (sa/linesem.py)
+    from ..linesem import check_error_context
+
+    n_c, bad_c = check_error_context(repo, "src/pest/exceptions.py::error_context", tier == "thorough")
+    check.count("context_model_points", n_c)
+    ccon = "src/pest/exceptions.py::error_context"
+    check.oblige("CONTEXT", ccon, f"line:column and source line are those of the position on all {n_c} model (text, offset) points", True, sample=True)
+    cats_c: dict[str, list[str]] = {}
+    for cat, msg in bad_c:
+        cats_c.setdefault(cat, []).append(msg)
+    for cat, msgs in sorted(cats_c.items()):
+        check.oblige("CONTEXT", ccon, cat, False, sample=True, finding=Finding("CONTEXT", ccon, cat, f"error_context: {cat}: e.g. {msgs[0]} ({len(msgs)} of {n_c} model points)", {"witness": msgs[0]}))
+    check.floor("context_model_points", 500)
     check.floor("fail_call_sites", 18)
     check.floor("furthest_writes", 8)
     return check
